@@ -2,6 +2,8 @@ import NurbsVerif.Lemmas.PredicatesPlanar
 import NurbsVerif.Lemmas.PredicatesRay
 import NurbsVerif.Lemmas.PredicatesVoxel
 import NurbsVerif.Lemmas.PredicatesCtrlpts
+import NurbsVerif.Lemmas.WindingOne
+import NurbsVerif.Lemmas.FrangeGeneral
 
 /-!
 # C20  Planar predicates and spatial queries agree with exact arithmetic
@@ -11,12 +13,18 @@ ordered field (ℚ – hence every finite double – and ℝ).  The model functi
 correspondence check runs against `linalg.is_left / wn_poly / convex_hull`, `ray.intersect`,
 `voxelize.voxelize` (and its helpers) and `operations.find_ctrlpts`.
 
+Convex hull and winding number (round 3): `convexHull_correct` (subset, containment of every input
+point, strict convexity, distinct vertices – all cases including collinear and duplicate points),
+`halfHull_invariant` (Andrew's invariant of one scan), `wnPoly_convex` (strictly convex polygon, point
+off the boundary), `wnNum_convex_value`, `wnPoly_convex_offLines`, `wnNum_inside_ge_one`,
+`wnNum_separated_zero`, `wnPoly_convexHull` / `wnNum_convexHull_interior` (composition of both routines).
+
 Not proved (kept visible, see also `PARTIAL` in harness/props/c20.py):
-* `theorem convexHull_correct : ∀ p ∈ pts, ∀ consecutive hull vertices a b, 0 ≤ isLeft a b p` and
-  strict convexity / minimality of the hull – only `convexHull_correct_partial` (hull ⊆ input);
-* `theorem wnPoly_convex : convex ccw polygon, point off the boundary → (wnPoly pt poly ↔ pt strictly
-  left of every edge)` and the general statement for simple polygons – proved are the invariances
-  and the per-edge rule;
+* `wn_poly = inside` for arbitrary *simple* (non-convex) polygons (proved without convexity: counter
+  `≥ 1` for a point strictly left of every edge, `= 0` for a point separated from the vertices by a
+  line; for strictly convex polygons the counter is exactly 1 / 0, `wnNum_convex_value`);
+* minimality of the hull in the sense "no proper sub-polygon contains the points" is not stated
+  separately – it is the conjunction of `hull ⊆ input`, strict convexity and distinctness;
 * `theorem findCtrlpts_exact : u strictly inside its span → every returned control point has a
   non-zero basis function` (strict positivity of A2.2 inside a span is not in the library yet) – only
   the inclusion "non-zero basis ⟹ returned" is proved.
@@ -110,20 +118,168 @@ theorem wnPoly_cyclic_shift (pt a b : K × K) (rest : List (K × K)) :
 
 /-! ## `linalg.convex_hull` -/
 
-/-- Tier 2, partial: every vertex returned by the monotone-chain scan is one of the input points.
-    (Missing: every input point is left-of-or-on every hull edge; strict convexity.)  The pop loop of
-    `keep_left` is modelled by structural recursion on the stack, i.e. it terminates. -/
+/-- Every vertex returned by the monotone-chain scan is one of the input points (part (1) of
+    `convexHull_correct`, kept under its round-1 name).  The pop loop of `keep_left` is modelled by
+    structural recursion on the stack, i.e. it terminates. -/
 theorem convexHull_correct_partial (pts : List (K × K)) : ∀ x ∈ convexHull pts, x ∈ pts :=
   fun x hx => convexHull_subset pts x hx
 
-/-- Tier 3, partial: the lower chain `l` and the upper chain `u` computed by the two scans are
-    chains of strict left turns (every three consecutive vertices turn strictly left), and the
-    result is `l ++ u[1:-1]`.  (Missing: the turns at the two junctions and containment of all
-    input points.) -/
+/-- The lower chain `l` and the upper chain `u` computed by the two scans are chains of strict left
+    turns, and the result is `l ++ u[1:-1]` (round-1 name; the junction turns and containment are in
+    `convexHull_strictly_convex` / `convexHull_contains_all`). -/
 theorem convexHull_chains_turn_left_partial (pts : List (K × K)) :
     LeftChainFwd (halfHull (sortLex pts)) ∧ LeftChainFwd (halfHull (sortLex pts).reverse) ∧
     convexHull pts = halfHull (sortLex pts) ++ ((halfHull (sortLex pts).reverse).drop 1).dropLast :=
   ⟨halfHull_left_turns _, halfHull_left_turns _, rfl⟩
+
+/-- **Andrew's invariant** of one scan `reduce(keep_left, pts, [])` over a non-empty list that is
+    sorted with respect to a half-plane cone `pos` (the lexicographic order for `sorted(points)`, its
+    reverse for `reversed(sorted(points))`): the returned chain consists of input points, is strictly
+    increasing in the order, turns strictly left at every inner vertex, starts at the first and ends at
+    the last point of the list, and **no input point lies strictly to the right of any of its
+    edges**.  (The invariant after every prefix is `Geomdl.ScanInv`, kept by `ScanInv.step`.) -/
+theorem halfHull_invariant (pos : K → K → Prop) (hc : IsCone pos) (m : K × K) (pts : List (K × K))
+    (hsorted : (m :: pts).Pairwise (cle pos)) :
+    let h := halfHull (m :: pts)
+    (∀ x ∈ h, x ∈ m :: pts) ∧ h.Pairwise (clt pos) ∧ LeftChainFwd h ∧
+    (∀ q ∈ m :: pts, ∀ e ∈ pairs h, 0 ≤ isLeft e.1 e.2 q) ∧
+    h.head? = some m ∧ (∃ M, h.getLast? = some M ∧ ∀ q ∈ m :: pts, cle pos q M) := by
+  intro h
+  have hh := halfHull_spec hc m pts hsorted
+  obtain ⟨m', rest, e, _⟩ := hh.first
+  have hm : h.head? = some m := by
+    show (halfHull (m :: pts)).head? = some m
+    unfold halfHull
+    rw [List.head?_reverse]
+    exact (scanInv_sorted hc m pts hsorted).bottom
+  exact ⟨hh.sub, hh.sorted, hh.chain, hh.contain, hm, hh.last⟩
+
+/-- `sorted(points)` is sorted lexicographically (`cle lexPos a b` is Python's `a <= b` on `[x, y]`),
+    and `reversed(sorted(points))` is sorted for the reversed order: the hypothesis of
+    `halfHull_invariant` holds for both scans of `convex_hull`. -/
+theorem sortLex_is_sorted (pts : List (K × K)) :
+    (sortLex pts).Pairwise (cle lexPos) ∧ (sortLex pts).reverse.Pairwise (cle negLex) ∧
+    (sortLex pts).Perm pts ∧ (∀ a b : K × K, lexLe a b = true ↔ cle lexPos a b) :=
+  ⟨sortLex_sorted pts, sortLex_reverse_sorted pts, sortLex_perm pts, lexLe_iff⟩
+
+/-- **Shape of the result** (what the code does with degenerate input): no point – empty hull; all
+    points equal – that single point; otherwise the lower chain `m … M` (lexicographic minimum to
+    maximum) followed by the inner vertices of the upper chain `M … m`.  Collinear input therefore
+    yields the two extreme points. -/
+theorem convexHull_shape (pts : List (K × K)) :
+    (pts = [] ∧ convexHull pts = []) ∨
+    (∃ m, (∀ q ∈ pts, q = m) ∧ convexHull pts = [m]) ∨
+    (∃ l u m M lT uT, HalfHull lexPos pts l ∧ HalfHull negLex pts u ∧ l = m :: lT ∧ lT ≠ [] ∧
+      u = M :: uT ∧ uT ≠ [] ∧ l.getLast? = some M ∧ u.getLast? = some m ∧
+      convexHull pts = l ++ uT.dropLast) :=
+  convexHull_cases pts
+
+/-- **Containment** (Tier 2): every input point is left of or on every edge of the closed polygon
+    `H + [H[0]]` formed by the returned vertex list `H` – for every finite input, including
+    duplicates and collinear points. -/
+theorem convexHull_contains_all (pts : List (K × K)) :
+    ∀ q ∈ pts, ∀ e ∈ pairs (convexHull pts ++ (convexHull pts).take 1), 0 ≤ isLeft e.1 e.2 q :=
+  convexHull_contains pts
+
+/-- **Strict convexity** (Tier 3): if the hull has at least three vertices, every three cyclically
+    consecutive vertices (`H + H[:2]` lists them all, the two junctions of lower and upper chain
+    included) make a strict left turn: the polygon is counter-clockwise and has no collinear
+    vertices. -/
+theorem convexHull_strictly_convex (pts : List (K × K)) (h3 : 3 ≤ (convexHull pts).length) :
+    LeftChainFwd (convexHull pts ++ (convexHull pts).take 2) :=
+  convexHull_strict pts h3
+
+/-- The returned vertices are pairwise distinct. -/
+theorem convexHull_vertices_distinct (pts : List (K × K)) : (convexHull pts).Nodup :=
+  convexHull_nodup pts
+
+/-- **`convex_hull` is correct**: for every finite point list the result `H`
+    (1) consists of input points, (2) has pairwise distinct vertices, (3) every input point is left
+    of or on every edge of the closed polygon `H + [H[0]]`, and (4) with three or more vertices the
+    polygon is strictly convex and counter-clockwise. -/
+theorem convexHull_correct (pts : List (K × K)) :
+    (∀ x ∈ convexHull pts, x ∈ pts) ∧ (convexHull pts).Nodup ∧
+    (∀ q ∈ pts, ∀ e ∈ pairs (convexHull pts ++ (convexHull pts).take 1), 0 ≤ isLeft e.1 e.2 q) ∧
+    (3 ≤ (convexHull pts).length → LeftChainFwd (convexHull pts ++ (convexHull pts).take 2)) :=
+  ⟨fun x hx => convexHull_subset pts x hx, convexHull_nodup pts, convexHull_contains pts,
+   convexHull_strict pts⟩
+
+/-! ## `linalg.wn_poly` on convex polygons -/
+
+/-- **Inside**: a point strictly left of every edge of a closed polygon `V₀, …, Vₙ = V₀` (at least
+    one edge; no convexity needed) has a winding counter of at least 1, so `wn_poly` answers True. -/
+theorem wnNum_inside_ge_one (pt : K × K) (poly : List (K × K)) (hclosed : poly.head? = poly.getLast?)
+    (hlen : 2 ≤ poly.length) (he : ∀ e ∈ pairs poly, 0 < isLeft e.1 e.2 pt) :
+    1 ≤ wnNum pt poly ∧ wnPoly pt poly = true := by
+  have h := wnNum_inside pt poly hclosed hlen he
+  refine ⟨h, ?_⟩
+  unfold wnPoly; rw [bne_iff_ne]; omega
+
+/-- **Outside**: if a line `a b` separates the point strictly from the closed polygon (`pt` strictly
+    right of it, every vertex left of or on it; no convexity needed) the winding counter is 0 and
+    `wn_poly` answers False.  For a convex counter-clockwise polygon every edge line qualifies. -/
+theorem wnNum_separated_zero (pt a b : K × K) (poly : List (K × K)) (hclosed : poly.head? = poly.getLast?)
+    (hpt : isLeft a b pt < 0) (hv : ∀ v ∈ poly, 0 ≤ isLeft a b v) :
+    wnNum pt poly = 0 ∧ wnPoly pt poly = false := by
+  have h := wnNum_separated pt a b poly hclosed hpt hv
+  refine ⟨h, ?_⟩
+  unfold wnPoly; rw [h]; rfl
+
+/-- Convex counter-clockwise closed polygon (every vertex left of or on every edge), point on none
+    of the edge *lines*: `wn_poly` is True exactly when the point is strictly left of every edge. -/
+theorem wnPoly_convex_offLines (pt : K × K) (poly : List (K × K)) (hclosed : poly.head? = poly.getLast?)
+    (hlen : 2 ≤ poly.length) (hconv : ∀ e ∈ pairs poly, ∀ v ∈ poly, 0 ≤ isLeft e.1 e.2 v)
+    (hoff : ∀ e ∈ pairs poly, isLeft e.1 e.2 pt ≠ 0) :
+    wnPoly pt poly = true ↔ ∀ e ∈ pairs poly, 0 < isLeft e.1 e.2 pt :=
+  wnPoly_convex_iff pt poly hclosed hlen hconv hoff
+
+/-- **`wn_poly` for a strictly convex counter-clockwise polygon and a point off the boundary.**
+    `H` is the vertex list, the polygon passed to `wn_poly` is `H + [H[0]]`; every vertex is left of
+    or on every edge, every three cyclically consecutive vertices turn strictly left, and `pt` lies on
+    no closed edge segment (`onSegment`, see `onSegment_param`).  Then `wn_poly(pt, H + [H[0]])` is
+    True exactly when `pt` is strictly left of every edge, i.e. strictly inside. -/
+theorem wnPoly_convex (H : List (K × K)) (pt : K × K)
+    (hconv : ∀ e ∈ pairs (H ++ H.take 1), ∀ v ∈ H, 0 ≤ isLeft e.1 e.2 v)
+    (hstrict : LeftChainFwd (H ++ H.take 2)) (h2 : 2 ≤ H.length)
+    (hoff : ∀ e ∈ pairs (H ++ H.take 1), ¬ onSegment e.1 e.2 pt) :
+    wnPoly pt (H ++ H.take 1) = true ↔ ∀ e ∈ pairs (H ++ H.take 1), 0 < isLeft e.1 e.2 pt :=
+  wnPoly_strictConvex_iff H pt hconv hstrict h2 hoff
+
+/-- **Value of the winding counter** for a strictly convex counter-clockwise polygon with pairwise
+    distinct vertices and a point off the boundary: exactly 1 for a point strictly left of every edge
+    (a convex polygon crosses the horizontal line through the point upwards only once), exactly 0
+    otherwise. -/
+theorem wnNum_convex_value (H : List (K × K)) (pt : K × K) (hnd : H.Nodup)
+    (hconv : ∀ e ∈ pairs (H ++ H.take 1), ∀ v ∈ H, 0 ≤ isLeft e.1 e.2 v)
+    (hstrict : LeftChainFwd (H ++ H.take 2)) (h2 : 2 ≤ H.length)
+    (hoff : ∀ e ∈ pairs (H ++ H.take 1), ¬ onSegment e.1 e.2 pt) :
+    ((∀ e ∈ pairs (H ++ H.take 1), 0 < isLeft e.1 e.2 pt) → wnNum pt (H ++ H.take 1) = 1) ∧
+    (¬ (∀ e ∈ pairs (H ++ H.take 1), 0 < isLeft e.1 e.2 pt) → wnNum pt (H ++ H.take 1) = 0) := by
+  refine ⟨wnNum_strictConvex_eq_one H pt h2 hnd hconv hstrict, ?_⟩
+  intro hn
+  have h := wnPoly_strictConvex_iff H pt hconv hstrict h2 hoff
+  by_contra hne
+  exact hn (h.mp (by unfold wnPoly; rw [bne_iff_ne]; exact hne))
+
+/-- `onSegment a b p` means what it says: `a + t (b - a)` is on the segment iff `0 ≤ t ≤ 1`. -/
+theorem onSegment_meaning (a b : K × K) (hne : a ≠ b) (t : K) :
+    onSegment a b (a.1 + t * (b.1 - a.1), a.2 + t * (b.2 - a.2)) ↔ 0 ≤ t ∧ t ≤ 1 :=
+  onSegment_param a b hne t
+
+/-- **Both routines together**: for a point set whose hull `H = convex_hull(pts)` has at least three
+    vertices and a point `pt` not on the hull boundary, `wn_poly(pt, H + [H[0]])` is True exactly when
+    `pt` is strictly left of every hull edge. -/
+theorem wnPoly_convexHull (pts : List (K × K)) (h3 : 3 ≤ (convexHull pts).length) (pt : K × K)
+    (hoff : ∀ e ∈ pairs (convexHull pts ++ (convexHull pts).take 1), ¬ onSegment e.1 e.2 pt) :
+    wnPoly pt (convexHull pts ++ (convexHull pts).take 1) = true ↔
+      ∀ e ∈ pairs (convexHull pts ++ (convexHull pts).take 1), 0 < isLeft e.1 e.2 pt :=
+  wnPoly_convexHull_offBoundary pts h3 pt hoff
+
+/-- … and the winding counter of a point strictly inside the hull is exactly 1. -/
+theorem wnNum_convexHull_interior (pts : List (K × K)) (h3 : 3 ≤ (convexHull pts).length) (pt : K × K)
+    (hin : ∀ e ∈ pairs (convexHull pts ++ (convexHull pts).take 1), 0 < isLeft e.1 e.2 pt) :
+    wnNum pt (convexHull pts ++ (convexHull pts).take 1) = 1 :=
+  wnNum_convexHull_eq_one pts h3 pt hin
 
 /-! ## `ray.intersect` -/
 
@@ -228,6 +384,25 @@ theorem frange_exact (start step : K) (hs : 0 < step) (n fuel : ℕ) (hf : n + 1
       = some ((List.range (n + 1)).map (fun (j : ℕ) => start + (j : K) * step)) :=
   Geomdl.frange_exact start step hs n fuel hf
 
+/-- **Values of `frange` for an arbitrary stop value**: with `n` the first index at which the loop
+    test `x + step/2 < stop` fails, `frange` returns `start + j·step` for `j = 0..n`, followed by
+    `stop` itself when `start + n·step < stop` (the "last value is the stop value" rule). -/
+theorem frange_values (start stop step : K) (n fuel : ℕ)
+    (hlt : ∀ j, j < n → start + (j : K) * step + step / 2 < stop)
+    (hge : stop ≤ start + (n : K) * step + step / 2) (hf : n + 1 ≤ fuel) :
+    frange start stop step fuel
+      = some ((List.range (n + 1)).map (fun (j : ℕ) => start + (j : K) * step)
+          ++ (if start + (n : K) * step < stop then [stop] else [])) :=
+  frange_general start stop step n fuel hlt hge hf
+
+/-- For a positive step in an Archimedean field (ℚ, ℝ) such an `n` exists: `frange` terminates and
+    yields `start, start + step, …, start + n·step` (and then `stop` if not yet reached). -/
+theorem frange_values_archimedean [Archimedean K] (start stop step : K) (hs : 0 < step) :
+    ∃ n : ℕ, ∀ fuel, n + 1 ≤ fuel → frange start stop step fuel
+      = some ((List.range (n + 1)).map (fun (j : ℕ) => start + (j : K) * step)
+          ++ (if start + (n : K) * step < stop then [stop] else [])) :=
+  frange_general_arch start stop step hs
+
 /-- **The grid covers the bounding box**: whenever `generate_voxel_grid` returns, every point of
     the (non-inverted) bounding box lies in one of the voxels – cuboids or cubes. -/
 theorem voxelGrid_covers_bbox (bmin bmax : K × K × K) (sz : ℕ × ℕ × ℕ) (useCubes : Bool) (fuel : ℕ)
@@ -321,6 +496,36 @@ example : wnPoly ((1/2 : ℚ), (1/2 : ℚ)) [(0,0), (1,0), (1,1), (0,1), (0,0)] 
 
 /-- hull of a square with an interior and a boundary point -/
 example : convexHull [((1:ℚ), (1:ℚ)), (0,0), (2,0), (2,2), (1,0), (0,2)] = [(0,0), (2,0), (2,2), (0,2)] := by decide +kernel
+
+/-- hypotheses of `wnPoly_convex` hold for the unit square and the points (1/2,1/2) (inside) and
+    (2,1/2) (outside, on no segment); the hull of a point set with duplicates and collinear points has
+    four vertices, so `convexHull_strictly_convex` / `wnPoly_convexHull` apply -/
+example : let H : List (ℚ × ℚ) := [(0,0), (1,0), (1,1), (0,1)]
+    (∀ e ∈ pairs (H ++ H.take 1), ∀ v ∈ H, 0 ≤ isLeft e.1 e.2 v) ∧ 2 ≤ H.length ∧
+    (∀ e ∈ pairs (H ++ H.take 1), 0 < isLeft e.1 e.2 ((1/2 : ℚ), (1/2 : ℚ))) ∧
+    (∀ e ∈ pairs (H ++ H.take 1), isLeft e.1 e.2 ((2 : ℚ), (1/2 : ℚ)) ≠ 0) := by decide +kernel
+
+example : let H : List (ℚ × ℚ) := [(0,0), (1,0), (1,1), (0,1)]
+    H.Nodup ∧ (∀ e ∈ pairs (H ++ H.take 1), ¬ onSegment e.1 e.2 ((2 : ℚ), (1/2 : ℚ))) ∧
+    (∀ e ∈ pairs (H ++ H.take 1), ¬ onSegment e.1 e.2 ((1/2 : ℚ), (1/2 : ℚ))) := by
+  simp only [onSegment]
+  decide +kernel
+
+example : LeftChainFwd ([((0:ℚ),(0:ℚ)), (1,0), (1,1), (0,1)] ++ [((0:ℚ),(0:ℚ)), (1,0), (1,1), (0,1)].take 2) := by
+  simp only [List.take, List.cons_append, List.nil_append, LeftChainFwd, and_true]
+  decide +kernel
+
+example : 3 ≤ (convexHull [((1:ℚ), (1:ℚ)), (0,0), (2,0), (2,2), (1,0), (0,2), (2,2), (1,1)]).length := by decide +kernel
+
+/-- degenerate inputs: collinear points give the two extreme points, equal points a single vertex -/
+example : convexHull [((1:ℚ), (1:ℚ)), (0,0), (2,2), (1,1)] = [(0,0), (2,2)] ∧
+    convexHull [((1:ℚ), (1:ℚ)), (1,1)] = [(1,1)] := by decide +kernel
+
+/-- `sorted` input for `halfHull_invariant` -/
+example : ([((0:ℚ),(0:ℚ)), (1,0), (1,1), (2,0)].Pairwise (fun a b => lexLe a b = true)) := by decide +kernel
+
+/-- `frange 0 1 (3/10)`: not an exact multiple, `n = 3`, the stop value is appended -/
+example : frange (0:ℚ) 1 (3/10) 5 = some [0, 3/10, 3/5, 9/10, 1] := by decide +kernel
 
 /-- two 3-D rays meeting in (1,1,0): hypotheses of `ray_meet_returns_parameters` hold with
     `tol = 1/1000`, `m = 1` (= |d₁ × d₂| exactly), `s = 1`, `s' = 1` -/
